@@ -79,4 +79,50 @@ THEOREM WriteOnceThm == Spec => WriteOnce
 <1>1. DomOK /\ [Next]_vars => (\A c \in Cells : cell[c].st = "set" => cell'[c] = cell[c])
       BY WriteOnceStep
 <1> QED BY <1>1, DomInv, PTL DEF Spec, WriteOnce
+
+(* a running cell is only ended by its runner, and only by publishing a value *)
+THEOREM RunnerOwnsStep ==
+  ASSUME DomOK, [Next]_vars
+  PROVE  \A c \in Cells : cell[c].st = "running" /\ cell'[c] # cell[c]
+                            => cell'[c].st = "set" /\ th[cell[c].x].run = c
+<1> SUFFICES ASSUME NEW c \in Cells, cell[c].st = "running", cell'[c] # cell[c]
+             PROVE  cell'[c].st = "set" /\ th[cell[c].x].run = c
+    OBVIOUS
+<1>1. CASE UNCHANGED vars
+      BY <1>1 DEF vars
+<1>2. CASE Done
+      BY <1>2 DEF Done, vars
+<1>3. ASSUME NEW t \in Threads, NEW o \in OpsOf(t), Call(t, o)
+      PROVE  FALSE
+      BY <1>3 DEF Call
+<1>4. ASSUME NEW t \in Threads, Return(t)
+      PROVE  FALSE
+      BY <1>4 DEF Return
+<1>5. ASSUME NEW t \in Threads, NEW d \in Cells, Observe(t, d)
+      PROVE  FALSE
+      BY <1>5 DEF Observe
+<1>6. ASSUME NEW t \in Threads, NEW d \in Cells, Begin(t, d)
+      PROVE  FALSE
+  <2>1. cell[d] = Unset /\ cell' = [cell EXCEPT ![d] = Running(t)]
+        BY <1>6 DEF Begin
+  <2>2. d # c
+        BY <2>1 DEF Unset
+  <2> QED BY <2>1, <2>2 DEF DomOK
+<1>7. ASSUME NEW t \in Threads, NEW d \in Cells, Finish(t, d)
+      PROVE  cell'[c].st = "set" /\ th[cell[c].x].run = c
+  <2>1. /\ cell[d] = Running(t) /\ th[t].run = d
+        /\ cell' = [cell EXCEPT ![d] = IsSet(InitValue(th[t].op, d))]
+        BY <1>7 DEF Finish
+  <2>2. d = c
+        BY <2>1 DEF DomOK
+  <2>3. cell[c].x = t
+        BY <2>1, <2>2 DEF Running
+  <2> QED BY <2>1, <2>2, <2>3 DEF DomOK, IsSet
+<1> QED BY <1>1, <1>2, <1>3, <1>4, <1>5, <1>6, <1>7 DEF Next, Step
+
+THEOREM RunnerOwnsThm == Spec => RunnerOwnsCell
+<1>1. DomOK /\ [Next]_vars => (\A c \in Cells : cell[c].st = "running" /\ cell'[c] # cell[c]
+                                                   => cell'[c].st = "set" /\ th[cell[c].x].run = c)
+      BY RunnerOwnsStep
+<1> QED BY <1>1, DomInv, PTL DEF Spec, RunnerOwnsCell
 =============================================================================
